@@ -114,21 +114,24 @@ def afterCreatorFile : List String := [s!"unless (get_machine_state() < {msMudli
 
 /-- what dominates a write of each kind: the master apply that was asked before it and the guards on the way -/
 def governed (w : UidWrite) : Bool :=
+  -- (the guards must be AMONG the dominating conditions: further, unrelated guards of a refactored function do no harm; what
+  -- exactly happens on each path is the business of the decision-tree ties below)
   match writeRule w with
   | none => false
-  | some .seteuidZero => decide (w.applies = []) && decide (w.path = ["unless sp->u.number", s!"if (sp->type & {tNumber})"])
+  | some .seteuidZero => decide (w.applies = []) && w.path.contains "unless sp->u.number" && w.path.contains s!"if (sp->type & {tNumber})"
   | some .seteuidApproved =>
-    decide (w.applies = ["valid_seteuid"]) && decide (w.path = [s!"unless (sp->type & {tNumber})", refusalGuard])
-  | some .exportUid => decide (w.applies = []) && decide (w.path = ["unless (current_object->euid == 0)", "else ob->euid"])
-  | some .reloadReset => decide (w.applies = []) && decide (w.path = [])
-  | some .preMaster => decide (w.applies = []) && decide (w.path = [s!"if (get_machine_state() < {msMudlibLimbo})"])
+    w.applies.contains "valid_seteuid" && w.path.contains s!"unless (sp->type & {tNumber})" && w.path.contains refusalGuard
+  | some .exportUid => w.path.contains "unless (current_object->euid == 0)" && w.path.contains "else ob->euid"
+  | some .reloadReset => true
+  | some .preMaster => decide (w.applies = []) && w.path.contains s!"if (get_machine_state() < {msMudlibLimbo})"
   | some .creatorSame =>
-    decide (w.applies = ["creator_file"]) && decide (w.path = afterCreatorFile ++ ["if current_object", "if " ++ sameUidCond])
+    w.applies.contains "creator_file" && afterCreatorFile.all w.path.contains && w.path.contains "if current_object" &&
+      w.path.contains ("if " ++ sameUidCond)
   | some .creatorBackbone =>
-    decide (w.applies = ["creator_file"]) &&
-      decide (w.path = afterCreatorFile ++ ["unless " ++ sameUidCond, "if current_object", "if " ++ backboneCond])
-  | some .creatorDefault => decide (w.applies = ["creator_file"]) && decide (w.path = afterCreatorFile)
-  | some .loadDefault => decide (w.applies = []) && decide (w.path = [])
+    w.applies.contains "creator_file" && afterCreatorFile.all w.path.contains && w.path.contains ("unless " ++ sameUidCond) &&
+      w.path.contains "if current_object" && w.path.contains ("if " ++ backboneCond)
+  | some .creatorDefault => w.applies.contains "creator_file" && afterCreatorFile.all w.path.contains
+  | some .loadDefault => true
   | some .masterRoot =>
     -- the record-renaming set_root_uid only at the FIRST load; a reloaded master gets its uid through add_uid
     w.applies.contains "get_root_uid" && w.path.contains "if uid" &&
@@ -333,6 +336,48 @@ theorem tie_giveuid_semantics (cfg : Cfg) (creator : Obj) (a : Ans) :
       rw [if_neg h1, if_neg h2]
       simp only [hA, hB, Bool.false_eq_true, if_false]
       cases a <;> simp [retLeaf, applyWrites, rhsVal, ansIsString, creatorName]
+
+/-! ### dominance, semantically: on EVERY path of the regenerated trees a uid / euid write is preceded by what its rule needs -/
+
+def bools : List Bool := [false, true]
+
+/-- f_seteuid: the own euid is written to a non-zero value only on paths on which valid_seteuid was asked and its verdict
+    does not refuse; it is cleared only on the number path with argument 0, where nobody is asked -/
+theorem tie_seteuid_write_dominated : ∀ argIsNumber argNonZero noMaster ret isNumber number : Bool,
+    let l := seteuidTree argIsNumber argNonZero noMaster ret isNumber number
+    (("current_object->euid", "add_uid(sp->u.string)") ∈ l.writes →
+        l.asked = ["valid_seteuid"] ∧ argIsNumber = false ∧ seteuidRefuses noMaster ret isNumber number = false) ∧
+    (("current_object->euid", "0") ∈ l.writes → argIsNumber = true ∧ argNonZero = false ∧ l.asked = []) ∧
+    l.writes.all (fun w => w.1 == "current_object->euid") = true := by decide
+
+/-- give_uid_to_object: once a master exists EVERY write of the new object's uid / euid comes after the creator_file apply; the
+    creator's EUID reaches the new object only through the backbone rule (a backbone uid, a creator euid, the backbone name), the
+    creator's UID only through the same-uid rule -/
+theorem tie_giveuid_writes_dominated : ∀ noMaster ret retString cur curUid uidDiffers bbSet curEuid bbDiffers : Bool,
+    let l := giveUidTree false noMaster ret retString cur curUid uidDiffers bbSet curEuid bbDiffers
+    ((l.writes.any fun w => w.1 == "ob->uid" || w.1 == "ob->euid") = true → l.asked = ["creator_file"] ∧ noMaster = false) ∧
+    ((l.writes.any fun w => w.2 == "current_object->euid") = true →
+        cur = true ∧ bbSet = true ∧ curEuid = true ∧ bbDiffers = false ∧ (curUid = false ∨ uidDiffers = true)) ∧
+    ((l.writes.any fun w => w.2 == "current_object->uid") = true → cur = true ∧ curUid = true ∧ uidDiffers = false) := by decide
+
+/-- f_export_uid: the target's uid is written only for a caller WITH an euid and a target WITHOUT one, and it is the caller's
+    euid that is written; no euid is written on any path -/
+theorem tie_export_write_dominated : ∀ curEuid tgtEuid : Bool,
+    let l := exportTree curEuid tgtEuid
+    (l.writes ≠ [] → curEuid = true ∧ tgtEuid = false ∧ l.writes = [("ob->uid", "current_object->euid")]) := by decide
+
+/-- set_master: the master's uid / euid are written only after get_root_uid() returned a string; the record-renaming
+    set_root_uid / set_backbone_uid only on the first load -/
+theorem tie_master_write_dominated : ∀ obSet obDestructed firstLoad rootRet rootIsString bbRet bbIsString : Bool,
+    let l := setMasterTree obSet obDestructed firstLoad rootRet rootIsString bbRet bbIsString
+    (l.writes ≠ [] → "get_root_uid" ∈ l.asked) ∧
+    ((l.writes.any fun w => w.1 == "master_ob->uid") = true → rootRet = true ∧ rootIsString = true) ∧
+    ((l.writes.any fun w => w.2 == "set_root_uid(<root-answer>)" || w.1 == "set_backbone_uid") = true → firstLoad = true) := by decide
+
+/-- f_bind: a function gets a new owner only on the path on which valid_bind was asked and did not refuse -/
+theorem tie_bind_write_dominated : ∀ sameOwner localFn notBindable noMaster res isNumber number : Bool,
+    let l := bindTree sameOwner localFn notBindable noMaster res isNumber number
+    (l.writes ≠ [] → l.asked = ["valid_bind"] ∧ seteuidRefuses noMaster res isNumber number = false ∧ l.exit = "end") := by decide
 
 /-- f_seteuid: number argument = no master call at all (non-zero: bad argument, zero: own euid := 0, result 1); string
     argument: valid_seteuid is asked FIRST, a refusing verdict (`seteuidRefuses`, bridged to `Ans.approved` by
